@@ -314,7 +314,7 @@ def main():
                 if c["emin"] is not None or c["emax"] is not None:
                     lo = float(kv.get("erange-min-energy-MeV", "nan"))
                     hi = float(kv.get("erange-max-energy-MeV", "nan"))
-                    if (c["emin"] is not None and lo != c["emin"]) or (c["emax"] is not None and hi != c["emax"]) or not float(kv.get("erange-toallevents", "0")) >= 1.0 - 1e-6:
+                    if (c["emin"] is not None and lo != c["emin"]) or (c["emax"] is not None and hi != c["emax"]) or not float(kv.get("erange-toallevents", "0")) >= 1.0 - 1e-3:
                         # (the ratio is a quotient of two quadratures: a window covering nearly the whole range gives 1 up to their rounding,
                         #  e.g. 0.999999999931913 for Cd106 mode 10 with -E 1.7109375 on the unchanged tree)
                         chk.violation("companion|erange", "`%s`: erange keys %r %r %r" % (tag, kv.get("erange-min-energy-MeV"), kv.get("erange-max-energy-MeV"), kv.get("erange-toallevents")), wit)
